@@ -739,6 +739,11 @@ def v_searchsorted(ex, st, o, args, kwargs, node):
             st.assume(z3.ForAll([k], z3.Implies(z3.And(0 <= k, k < to_z3(v.n)), (k < p) == (to_z3(v.at(k)) < x))))
         else:
             st.assume(z3.ForAll([k], z3.Implies(z3.And(0 <= k, k < to_z3(v.n)), (k < p) == (to_z3(v.at(k)) <= x))))
+        # the two instances at the partition point itself (the element before it and the element at it), stated ground:
+        # the quantified fact above needs k := p - 1, which trigger-based instantiation does not find
+        below = (lambda y: y < x) if side == "left" else (lambda y: y <= x)
+        st.assume(z3.Implies(p > 0, below(to_z3(v.at(p - 1)))))
+        st.assume(z3.Implies(p < to_z3(v.n), z3.Not(below(to_z3(v.at(p))))))
         return p
     if isinstance(q, Vec):
         P = z3.Function(fresh_name("ss"), I, I)
